@@ -170,6 +170,7 @@ class Check:
             "action_coverage": self.coverage_actions,
             "known_findings_fired": [k["what"] for k in self.known],
             "repo_rev": repo_rev(),
+            "worker_crashes_skipped": len(CRASHES),
         }
         cov.update(self.extra)
         ev = {
@@ -198,19 +199,48 @@ def _pool_init():
     setup_repo_path()
 
 
-def pmap(fn, items, procs=None, chunksize=1):
-    """Map `fn` over items in spawned worker processes (fork is unsafe once jax is imported)."""
+CRASHES = []          # items whose worker process died (e.g. an XLA compiler CHECK failure): skipped, reported in evidence
+
+
+def pmap(fn, items, procs=None, chunksize=1, crash_value=([], 0), split=None):
+    """Map `fn` over items in spawned worker processes (fork is unsafe once jax is imported).
+
+    A worker that dies (XLA aborts the process on some compiler CHECK failures) must neither hang the check nor be
+    mistaken for a violation: the pool is rebuilt, unfinished items are re-run one per fresh process, and an item that
+    kills its process again is skipped -- recorded in CRASHES and given `crash_value`."""
     import multiprocessing as mp
+    from concurrent.futures import ProcessPoolExecutor
+    from concurrent.futures.process import BrokenProcessPool
     items = list(items)
     if not items:
         return []
     procs = min(procs or int(os.environ.get("VERIF_PROCS", "16")), len(items))
-    if procs <= 1:
-        _pool_init()
-        return [fn(x) for x in items]
     ctx = mp.get_context("spawn")
-    with ctx.Pool(procs, initializer=_pool_init) as pool:
-        return pool.map(fn, items, chunksize=chunksize)
+    results = [None] * len(items)
+    done = [False] * len(items)
+    try:
+        with ProcessPoolExecutor(procs, mp_context=ctx, initializer=_pool_init) as ex:
+            futs = {i: ex.submit(fn, it) for i, it in enumerate(items)}
+            for i, f in futs.items():
+                results[i] = f.result()
+                done[i] = True
+    except BrokenProcessPool:
+        pass
+    todo = [i for i in range(len(items)) if not done[i]]
+    for i in todo:                      # isolate: one fresh process per unfinished item
+        try:
+            with ProcessPoolExecutor(1, mp_context=ctx, initializer=_pool_init) as ex:
+                results[i] = ex.submit(fn, items[i]).result()
+        except BrokenProcessPool:
+            parts = split(items[i]) if split else []
+            if len(parts) > 1:          # a chunk: isolate the crashing element, keep the rest ((fails, n) convention)
+                sub = pmap(fn, parts, procs=1, crash_value=crash_value, split=None)
+                results[i] = (sum((r[0] for r in sub), []), sum(r[1] for r in sub))
+                continue
+            CRASHES.append(repr(items[i])[:300])
+            print("WORKER-CRASH (skipped, not a violation): %s" % repr(items[i])[:200], flush=True)
+            results[i] = crash_value
+    return results
 
 
 def shards(items, n):
